@@ -780,6 +780,16 @@ def search_deleted_exhaustive(ck):
     ck.count('search:get_deleted-5-atom-graphs', total)
 
 
+def rdkit_canon(mol):
+    """stereo-aware canonical SMILES by RDKit (falls back to chython's string when RDKit cannot read it)"""
+    from rdkit import Chem
+    try:
+        rm = Chem.MolFromSmiles(str(mol))
+        return Chem.MolToSmiles(rm) if rm is not None else 'chython:' + str(mol)
+    except Exception:
+        return 'chython:' + str(mol)
+
+
 def struct_sig(m):
     return ({n: (a.atomic_number, a.isotope, a.charge, a.is_radical, a.implicit_hydrogens) for n, a in m.atoms()},
             {(min(n, k), max(n, k)): int(bd) for n, k, bd in m.bonds()})
@@ -943,11 +953,15 @@ def search_templates(ck):
                 continue
             m2 = corpus.renumber(m, rng)
             try:
-                a = sorted(str(x) for x in t_def(m))
-                c = sorted(str(x) for x in t_def(m2))
+                pa, pc = list(t_def(m)), list(t_def(m2))
             except Exception:
                 continue
-            if set(a) != set(c):
+            a, c = sorted(str(x) for x in pa), sorted(str(x) for x in pc)
+            if set(a) != set(c) and {rdkit_canon(x) for x in pa} == {rdkit_canon(x) for x in pc}:
+                # chython's canonical string is not unique for pseudo-asymmetric centres (1,4-disubstituted rings: a C01 matter):
+                # the two product sets are the same molecules by a stereo-aware canonicalisation of another toolkit
+                ck.count('search:renumbering-differs-only-in-chython-canonical-string (pseudo-asymmetric centres, see C01)')
+            elif set(a) != set(c):
                 ck.counterexample(f'renumbering:{tname}:{smi}', 'product set depends on the atom numbering of the reactant',
                                   {'smiles': smi, 'template': tname, 'numbering': list(m2._atoms)}, c, a, 'same molecule renumbered')
     ck.extra['products_checked'] = n_prod
